@@ -156,3 +156,16 @@ PROPS['C06'] = dict(
     assumptions=['settlement states are sampled by the harness at the instant each Close / Run call returns',
                  'subscriber.Close() of a handler may be observed up to 20 ms after Close returned (checked at quiescence only)'],
 )
+
+PROPS['C10'] = dict(
+    level='model_checking',
+    design=[D('RouterLifecycle', 'MCRouterLifecycle_fixed_stop.cfg'),
+            D('RouterLifecycle', 'MCRouterLifecycle_mut_started.cfg', expect='fail', violates='NoPanic')],
+    traces={'RouterLifecycleTrace': dict(module='RouterLifecycleTrace', cfg='RouterLifecycleTrace.cfg')},
+    rule='runs = lifecycle programs over {AddHandler, Run, wait Running, RunHandlers (sequential and 3-6 concurrent calls with slow Subscribe), wait Started, Stop, wait Stopped, '
+         'probe message, cancel Run context, second Run (also while the first is held inside Subscribe), Stop/Stopped called in the window right after Started() closes (gate)} '
+         'with 1..5 handlers, targeted programs plus random ones; non-trivial = at least two handlers',
+    exhaustive=False,
+    min_stats={'programs': 25},
+    assumptions=['a probe message counts as not handled after 700 ms', 'Subscribe calls are counted by the scripted subscribers'],
+)
